@@ -158,7 +158,9 @@ impl Parser {
     //@  ensures @handlers_balanced_after_try_statement final(self).had_error || final(self).comp.hdepth == old(self).comp.hdepth
     //@  ensures @parked_return_resumes_at_end_finally final(self).had_error || final(self).code().last() == opcode_byte(OpCode::EndFinally)
     //@  ensures final(self).comp.try_depth == old(self).comp.try_depth, final(self).comp.loop_stack@ == old(self).comp.loop_stack@
-    //@  assert @try_block_compiled_one_level_deeper before_stmt "self.compiler_mut().try_depth -= 1" self.comp.hdepth == old(self).comp.hdepth + 1 && self.comp.try_depth == old(self).comp.try_depth + 1
+    //@  assert @try_block_compiled_one_level_deeper before_stmt "self.compiler_mut().try_depth -= 1#1" self.comp.hdepth == old(self).comp.hdepth + 1 && self.comp.try_depth == old(self).comp.try_depth + 1
+    //@  assert @catch_block_runs_under_a_handler_that_leads_to_the_finally_block before_stmt "self.compiler_mut().try_depth -= 1#2" self.comp.hdepth == old(self).comp.hdepth + 1 && self.comp.try_depth == old(self).comp.try_depth + 1
+    //@  assert @the_catch_blocks_own_handler_is_removed_before_the_finally_block before_stmt "self.patch_jump(catch_jump_pos)" self.had_error || self.comp.hdepth == old(self).comp.hdepth
     //@end
 
     // return: when the Return instruction executes, the function must have removed every handler it installed: one
